@@ -125,6 +125,23 @@ func VecLen(w *load.World, c *core.Collector) {
 			c.Add("VECLEN", "anchor:"+fk, core.Undecided, "", "validator not found", props...)
 			continue
 		}
+		// the per-type cases may have been moved into a helper of the validator
+		f = homeOf(f, func(g *ssa.Function) bool {
+			for _, b := range g.Blocks {
+				if ifi, ok := b.Instrs[len(b.Instrs)-1].(*ssa.If); ok {
+					if bo, ok := ifi.Cond.(*ssa.BinOp); ok && bo.Op == token.EQL {
+						for _, v := range []ssa.Value{bo.X, bo.Y} {
+							if cs, isC := ssax.ConstString(v); isC {
+								if _, isVec := vecTypes[cs]; isVec {
+									return true
+								}
+							}
+						}
+					}
+				}
+			}
+			return false
+		})
 		succExit := map[ssa.Instruction]bool{}
 		for _, e := range successExits(f) {
 			succExit[e.In] = true
